@@ -220,10 +220,10 @@ PROPS["C03"] = {
         "HandshakeContext built literally by the harness"],
     "kani": [
         K("gate: no keys", "c03_gate_no_keys", "quick", "proof", ["DtlsInner::try_decrypt_record"],
-          "for every epoch, seq, type, version, role: epoch!=0 => Err; Ok(ApplicationData) => epoch!=0; epoch-0 Handshake/CCS pass through unchanged",
+          "for every epoch, seq, type, version, role: epoch!=0 => Err; Ok(ApplicationData) => epoch!=0; what epoch 0 lets through is the record's payload unchanged (cover: a Handshake record is accepted)",
           module=DM, min_covers=1),
         K("gate: session_keys", "c03_gate_session_keys", "quick", "proof", ["DtlsInner::try_decrypt_record"],
-          "epoch!=0 => exactly decrypt_record(type, version, epoch*2^48|seq, payload) under the PEER's write key/iv; Ok(ApplicationData) or Ok(Alert) => epoch!=0",
+          "whatever a protected epoch accepts is exactly decrypt_record(type, version, epoch*2^48|seq, payload) under the PEER's write key/iv (soundness; rejecting more is allowed, a cover keeps it non-vacuous); Ok(ApplicationData) or Ok(Alert) => epoch!=0",
           module=DM),
         K("gate: session_crypto", "c03_gate_session_crypto", "quick", "proof", ["DtlsInner::try_decrypt_record"],
           "same with the cached-cipher path decrypt_record_with_cipher", module=DM),
